@@ -135,6 +135,119 @@ CLAIMED['C19'] = dict(
     technique='Coq proof (lexing lemmas for the written text, induction on the triple list) + differential correspondence + round-trip oracle on the implementation',
 )
 
+CLAIMED['C01'] = dict(
+    category='proof',
+    text='Coq theorems over the executable mirror of _lexer/_parse/_format: for every tree satisfying the boolean wf_tree and EVERY indent (None, -1, n) and '
+         'compact setting the formatted text lexes to the tree\'s own token stream and parses back to the identical tree AND metadata; every string the parser '
+         'accepts yields a wf_tree, so its formatted text is a fixed point of parse-then-format; texts under different options are the same lexemes interleaved '
+         'only with spaces and LF. wf_tree is tight (a sampled mutated tree is wf exactly when it round-trips).',
+    design_ref='DESIGN.md §5 C01',
+    note=TB + ' numbers as atoms and hand-built non-wf trees are outside (numbers belong to C03); quick = 126k trees x 7 indents x 2 compact settings '
+         '(163k correspondence cases) incl. every robustness shape, strings with delimiters/escapes, alignments, multi-key metadata.',
+    technique='Coq proof (per-class lexing boundary lemmas, token-level parser induction, nested tree induction) + differential correspondence + round-trip oracle',
+)
+CLAIMED['C09'] = dict(
+    category='proof',
+    text='Coq theorems for EVERY text (well formed or not): the string split at LF/CRLF/CR and the terminator-keeping lines lex to the same tokens (type, text, line, '
+         'offset; a comment may only carry the CR it swallowed), hence the three line containers yield the same trees and graphs and raise together; universal-newline '
+         'translation is neutral; concatenated renderings of wf trees under any blank separator and any options parse back to exactly those trees with their own '
+         'metadata; loads(dumps(gs)) decodes exactly the encoded strings and dump writes dumps + newline.',
+    design_ref='DESIGN.md §5 C09',
+    note=TB + ' C09_dumps_loads is conditional on the configured trees being wf (C03/C06 content); error outcomes are identified up to the DecodeError offset after a '
+         'CR-carrying comment; real files, StringIO, encodings and OS newline handling are outside the model: the harness writes and reads real temporary files through '
+         '22 containers x 4 separators (80k correspondence cases quick).',
+    technique='Coq proof (framing of the lexer, concatenation via C01 lemmas) + differential correspondence + cross-container oracle with real files',
+)
+CLAIMED['C02'] = dict(
+    category='proof',
+    text='Coq theorem for EVERY model (arbitrary role predicate, deinverting or not) and every tree satisfying the boolean wf_layout_tree: '
+         'configure(interpret(t)) = t with only empty concept slots dropped — tree, alignments and metadata — with the fuel proved sufficient and the fallback loop '
+         'never entered; supporting theorems: interpret = accumulator-free entries, the single pass consumes exactly each subtree\'s segment with every Push fresh, '
+         'build reads the store back. wf_layout_tree is tight on ~190k sampled non-wf trees.',
+    design_ref='DESIGN.md §5 C02',
+    note=TB + ' the text-level clause encode(decode(s)) = normal-form text is checked by the oracle (three indents), not composed with C01 in Coq; alignment suffixes '
+         'must be in the printer\'s normal form (~e.01 is re-printed ~e.1: counted, not flagged); quick = 106k model/implementation cases x {default, live AMR, no-op, '
+         'mini-AMR, random tables}, Python twin of wf_layout_tree cross-checked against the extracted Coq predicate on every case.',
+    technique='Coq proof (segment invariant of the single-pass configurer by nested tree induction) + differential correspondence + layout/text oracle',
+)
+CLAIMED['C05'] = dict(
+    category='proof',
+    text='Coq theorems about rearrange for EVERY key function (stateful ones such as random_order with any seed included), with or without attributes-first: each '
+         'node\'s branches are a permutation with "/" kept first; the re-interpreted graph has the same top, metadata and triple multiset; for pure keys every node\'s '
+         'branches are THE unique stable sort by (criterion1, key) (numeric suffixes numerically, :op2 before :op10; inverted roles last for canonical); reconfigure hands '
+         'configure a marker-free graph with the same triples, alignments and (F31) the ORIGINAL top. Content preservation of configure itself is C03/C06\'s theorem.',
+    design_ref='DESIGN.md §5 C05',
+    note=TB + ' Python sorted is assumed to be a stable sort for the key\'s total preorder (C05_stable_sort_unique shows this determines the list; the oracle re-sorts with its '
+         'own insertion sort); reconfigure/new-top content clauses are covered here by the oracle (27k reconfigures, 4k encode-with-top quick) on deinverting of_free models.',
+    technique='Coq proof (stable-sort uniqueness, permutation invariance of interpret) + differential correspondence incl. replayed random streams + content/order oracle',
+)
+CLAIMED['C03'] = dict(
+    category='proof',
+    text='Coq theorems: for every well-formed graph connected to the requested top — ANY triple order, any top, with or without layout markers, any deinverting model '
+         'with canonical roles — configure SUCCEEDS (T3) and its tree holds exactly the graph\'s triples as a multiset up to one deinversion, rooted at the top with one '
+         'node per variable (T2); the formatter omits an atom only if it is None or the empty string (0, 0.0 and a 0 concept are written). The decode half of the round '
+         'trip is checked by the oracle and a whole-pipeline model/implementation correspondence.',
+    design_ref='DESIGN.md §5 C03',
+    note=TB + ' the content theorem is stated on the branch multiset of the configured tree; composing it with the C01 text round trip and the C04 reading theorem to '
+         'graph_eq(decode(encode g), g) is not done in Coq; numbers are modelled by text + truthiness; the no-op model is outside the content clause (N9); '
+         'quick = every wf connected graph over <= 3 variables x every permutation x every top + random larger ones (0.88M evaluations).',
+    technique='Coq proof (termination measure, placed+remaining multiset invariant, completeness of the fallback loop) + bounded-exhaustive differential correspondence + encode/decode oracle',
+)
+CLAIMED['C06'] = dict(
+    category='proof',
+    text='Coq theorems with the marker lists UNIVERSALLY quantified (any mix of Push/POP/alignments on any triple = every edit history): for every model, triple list, '
+         'marker assignment and top, configure terminates and returns a tree or the layout error only (T1, no hypothesis); every triple is expressed exactly once, one node '
+         'per variable, requested root (T2); success holds exactly when every triple is connected to the top (T3 + converse; a bad top gives the layout error); the content '
+         'is independent of the markers.',
+    design_ref='DESIGN.md §5 C06',
+    note=TB + ' hypotheses: roles carry their colon (guaranteed by the Graph constructor), Push markers name variables (N3), deinverting model with canonical roles for the '
+         'content clauses; encode = format after configure and the decode half are covered by the oracle; quick = 2.0M graphs incl. an EXHAUSTIVE family (6 marker lists per '
+         'triple on all wf connected graphs with <= 3 triples over 2 variables, every order/top/model) + random corruptions of decoded, pickled and deep-copied graphs + arbitrary ill-formed triple lists.',
+    technique='Coq proof (lexicographic termination measure, store invariants, connectivity <-> success) + exhaustive-family differential correspondence + totality/content oracle',
+)
+CLAIMED['C10'] = dict(
+    category='proof',
+    text='Coq theorems for arbitrary is_alpha/lower functions and any format of literal text, {prefix}, {i}, {j}: reset_variables terminates (fuel |nodes|+1) when the '
+         'format has an index and otherwise returns or raises ValueError (never loops); the old-to-new map is a bijection; the new tree is exactly the renaming applied at '
+         'definitions and references with alignment suffixes kept and nothing else changed; interpret(reset t) = rename_graph (interpret t) for triples, top, epidata and metadata.',
+    design_ref='DESIGN.md §5 C10',
+    note=TB + ' C10_iso assumes plain names (no "~", no leading quote), every node has a variable, the concept role written "/" and no constant spelled like a new name; str.format '
+         'beyond plain fields and {{ }} is outside; the naming rule (prefix + first free index depth-first) is checked by the oracle, not proved; the ASCII+Latin-1 '
+         'is_alpha/lower table of the extracted instance is validated against CPython on every run; quick = 60k wf trees x 8 formats.',
+    technique='Coq proof (injective rendering, renaming commutes with interpret) + differential correspondence + bijection/isomorphism oracle with 2 s alarms',
+)
+CLAIMED['C11'] = dict(
+    category='proof',
+    text='Coq theorems: under wf_graph, no_collapsible and table_ok_for, dereify_edges(reify_edges g) restores the ordered triple list, top, metadata and every triple\'s marker '
+         'list (the function configure/encode read); no reifiable role is left; new variables are fresh (also w.r.t. constants: F28), pairwise distinct, named _ / _k; the rest of '
+         'the graph is kept; a node that is the top, is referenced, or has != 2 relations is never collapsed. The LIVE AMR table is machine-checked against the hypotheses: all '
+         '35 reifiable roles pass, except inverted :subset/:superset (N4).',
+    design_ref='DESIGN.md §5 C11',
+    note=TB + ' epidata equality is as a function triple -> markers (dict key order changes, unobservable in text); identical encoded text follows by congruence and is checked '
+         'textually by the oracle; quick = 57k graphs over the AMR inventory and random unambiguous tables (274k correspondence requests).',
+    technique='Coq proof (marker migration inverse, fresh-name fuel lemma) + table hypotheses re-checked from amr.py + differential correspondence + text oracle',
+)
+CLAIMED['C12'] = dict(
+    category='proof',
+    text='Coq theorems: each transform and EVERY finite composition (C12_every_program, induction on the program) never raises on graphs with no, partial or stale epidata, '
+         'keeps the top, keeps node_graph (every source a variable owning one instance triple) and keeps connectivity; reify_attributes leaves no attribute and contracts back; '
+         'indicate_branches adds exactly one top-role triple per Push and removing them restores the original.',
+    design_ref='DESIGN.md §5 C12',
+    note=TB + ' the serialisation clause (encodes, decodes to itself up to one deinversion) is an instance of C03/C06 and is covered here by the oracle on 236k (graph, program) pairs '
+         '(all programs of length <= 3 quick / <= 4 thorough, CLI order and others); connected_b is proved sound, not complete; tables must not define :instance as a reification role.',
+    technique='Coq proof (invariant preservation per transform, induction on programs) + differential correspondence + well-formedness/round-trip oracle',
+)
+CLAIMED['C16'] = dict(
+    category='proof',
+    text='Coq theorems for every model (arbitrary role predicate) and every graph with string sources: Model.errors reports "invalid role", "unreachable" and the empty/top '
+         'messages EXACTLY when they apply; _dfs with its own fuel returns exactly the weakly connected component of the top; graphs interpreted from a tree with a non-empty top '
+         'node get only role errors; the exit status of the check tool is non-zero iff some graph of some input has an error, and every offending context is recorded as error-N.',
+    design_ref='DESIGN.md §5 C16',
+    note=TB + ' N8: a text writing :instance/:instance-of literally on a node-target branch is outside the decoded clause (guard in the theorem, Example shows it is needed); '
+         'non-str sources are outside (sorted would raise); argparse/sys.exit/files are covered by 600 real `python -m penman --check` subprocess runs per quick check.',
+    technique='Coq proof (DFS = reflexive-symmetric-transitive closure, fuel sufficiency) + order-sensitive differential correspondence + independent union-find/regex oracle + CLI subprocesses',
+)
+
 UNDER_CONSTRUCTION = {}
 
 
